@@ -201,6 +201,20 @@ int main (int argc, char **argv)
       rc = sc_MPI_Unpack (ib, (int) insize, &pos, ob, outcount, dt (tok[1]), world);
       prc (rc); printf (" %d ", pos); dump (ob, olen); guard (ob, olen); free (ib); free (ob);
     }
+    else if (!strcmp (c, "packbig") || !strcmp (c, "unpackbig")) {
+      /* T count limit position: a buffer of `limit` bytes (up to INT_MAX) that is not filled; code, position, guard */
+      int count = atoi (tok[2]), limit = atoi (tok[3]), pos = atoi (tok[4]);
+      unsigned char *big = (unsigned char *) malloc ((size_t) limit + GUARD), *small = sentbuf ((size_t) count * 16 + 16);
+      if (big == NULL) { printf ("NOMEM"); }
+      else {
+        memset (big + limit, SENT, GUARD);
+        if (c[0] == 'p') rc = sc_MPI_Pack (small, count, dt (tok[1]), big, limit, &pos, world);
+        else rc = sc_MPI_Unpack (big, limit, &pos, small, count, dt (tok[1]), world);
+        prc (rc); printf (" %d", pos); guard (big, (size_t) limit); guard (small, (size_t) count * 16 + 16);
+        free (big);
+      }
+      free (small);
+    }
     else if (!strcmp (c, "packsize")) {
       int size = ISENT;
       rc = sc_MPI_Pack_size (atoi (tok[2]), dt (tok[1]), world, &size);
